@@ -1579,7 +1579,8 @@ def _read_regex(ctx: ReaderContext) -> Pattern:
     s = _read_str(ctx, raw_string=True)
     try:
         return langutil.regex_from_str(s)
-    except re.error as e:
+    except (re.error, OverflowError) as e:
+        # (OverflowError: a repetition count beyond the limit of the regex engine)
         raise ctx.syntax_error(f"Unrecognized regex pattern syntax: {s}") from e
 
 
